@@ -198,7 +198,9 @@ func (r *ecRunner[P, B, S]) run(x *engine.X, c ecCase) {
 	var refusals map[sharing.ID]error
 	net := func() *schednet.Net { return schednet.New(proto.Sorted(quorum)...) }
 	keyFail := func(err error) {
-		x.Failf(c.proto+"/keygen/"+c.kg, "%s: key generation failed: %v", where, err)
+		if !outside(x, err, where) {
+			x.Failf(c.proto+"/keygen/"+c.kg, "%s: key generation failed: %s", where, errStr(err))
+		}
 	}
 	switch c.proto {
 	case "dkls23-bbot", "dkls23-softspoken":
